@@ -92,8 +92,8 @@ def run(ctx):
         b = bundle.Bundle(m["name"], txt, [n for n, _ in m["types"]],
                           opts=("-no-gen-example", "-fcompound-names") + (("-fwide-types",) if wide else ()))
         try: exe = b.build()
-        except Exception:
-            stats["build_failed"] += 1; b.cleanup(); continue
+        except Exception as e:
+            stats["build_failed"] += 1; ctx.module_not_built(m, e); b.cleanup(); continue
         vg = genmod.ValGen(ctx.rng, env)
         lines, meta = [], []
         for n, t in m["types"]:
